@@ -119,6 +119,7 @@ class TT():
             self.__N = []
             self.__R = [1, 1]
             self.__is_ttm = False
+            self.shape = []
 
         elif isinstance(source, list):
             # tt cores were passed directly
@@ -320,6 +321,8 @@ class TT():
             else:
                 self.cores[k] = core.clone()
                 self.__N[k] = core.shape[1]
+        self.shape = [(m, n) for m, n in zip(self.__M, self.__N)
+                      ] if self.__is_ttm else [n for n in self.N]
 
     def full(self):
         """
